@@ -3,7 +3,9 @@
    function of (level, data) only, so in the model split independence holds
    by construction; what is proved here are round trips through the two
    models on concrete inputs. *)
+From V Require Import Prefix.Code Prefix.GenPrefixesThms Prefix.GenLengthsThms Bzip2.LengthsThms Bzip2.LengthsOfCounts.
 From V Require Import Base.Prelude Base.Prog Bzip2.Common Bzip2.SpecR Bzip2.SpecW Bzip2.Thms Bzip2.Rle1 Bzip2.MtfRle2.
+From V Require Import Bzip2.SortLemmas Bzip2.Bwt.
 
 Theorem bzip2_roundtrip_witness_text :
   bzip2_decode (bzip2_encode 1 hello) = mkBZ None hello (N.of_nat (length (bzip2_encode 1 hello))).
@@ -89,3 +91,46 @@ Theorem bzip2_mtf_rle2_roundtrip_for_block_dictionary : forall block bwt maxn,
   (length dict <= 256)%nat.
 Proof. exact mtf_rle2_roundtrip_encode_block. Qed.
 Print Assumptions bzip2_mtf_rle2_roundtrip_for_block_dictionary.
+
+(* Stage 2 for EVERY block: the Reader's inverse Burrows-Wheeler transform (counting sort of
+   the positions by byte, then the pointer walk from the origin pointer) inverts the Writer's
+   transform (rotations sorted, equal rotations by decreasing start - a suffix array of the
+   doubled block), periodic blocks included. The bound is the model's own: its merge sort
+   runs 64 doubling passes, the format never exceeds 900000 bytes per block. *)
+Theorem bzip2_bwt_roundtrip : forall block : list byte,
+  block <> [] -> (forall b, In b block -> b < 256) ->
+  N.of_nat (length block) <= 2 ^ 64 ->
+  let '(out, ptr) := bwt_encode block in
+  length out = length block /\ ptr < len_n block /\
+  bwt_decode out (len_n block) ptr = block.
+Proof. exact bwt_roundtrip. Qed.
+Print Assumptions bzip2_bwt_roundtrip.
+
+(* Stages 2 and 3 chained, as encode_block / decode_block use them: BWT, MTF and zero-run
+   coding, decoded back to the block for every block the format allows *)
+Theorem bzip2_bwt_mtf_rle2_roundtrip : forall (block : list byte) (maxn : N),
+  block <> [] -> bytes_ok block -> len_n block <= maxn -> maxn <= 900000 ->
+  let '(out, ptr) := bwt_encode block in
+  let dict := block_dict block in
+  exists nblock tt_rev,
+    mtf_rle2_decode (mtf_rle2_encode out dict 0 []) dict maxn 1 0 0 [] = Some (nblock, tt_rev) /\
+    (ptr <? nblock) = true /\
+    bwt_decode (fast_rev tt_rev) nblock ptr = block.
+Proof. exact bwt_mtf_roundtrip. Qed.
+Print Assumptions bzip2_bwt_mtf_rle2_roundtrip.
+
+(* Stage 4, the code tables: for EVERY table of symbol counts (2 .. 2^20 symbols; bzip2 has
+   at most 258) the lengths the Writer model assigns are within 1..20 - also when the optimal
+   Huffman code would be deeper - form a complete code, and GeneratePrefixes accepts them
+   with a valid canonical code *)
+Theorem bzip2_code_lengths_are_complete_and_at_most_20_bits : forall cnts,
+  (2 <= length cnts)%nat -> N.of_nat (length cnts) <= 2 ^ 20 ->
+  let n := N.of_nat (length cnts) in
+  let ls := lengths_of_counts cnts in
+  length ls = length cnts /\
+  (forall l, In l ls -> 1 <= l <= 20) /\
+  lsumN (fun l => 2 ^ (20 - l)) ls = 2 ^ 20 /\
+  exists out, gen_prefixes (combine (iota n) ls) = GPOk out /\ valid_code out /\
+              map fst out = combine (iota n) ls.
+Proof. exact lengths_of_counts_correct. Qed.
+Print Assumptions bzip2_code_lengths_are_complete_and_at_most_20_bits.
